@@ -157,6 +157,61 @@ theorem inline_files_not_pending (f : OutputFile) (hc : f.hasContents = true) (r
     pending ar trees = pending { ar with files := rest } trees := by
   simp [pending, har, hc]
 
+/-! ### rewrites of the dependency walk
+
+`GetValidatedActionResult` may collect the digests in any order, skip repetitions, batch them …
+What the decision depends on is the *set* of digests (hash **and** size) handed to the presence
+check.  `lookupWith norm` is the decision when the collected list is passed through `norm` first. -/
+
+/-- the decision when the pending list is normalised (re-ordered, de-duplicated, …) by `norm` before
+the presence check -/
+def lookupWith (norm : List Digest → List Digest) (present : Present) (ar : ActionResult)
+    (treeOf : Digest → Option Tree) : GetOut :=
+  match readTrees present treeOf (treeDigests ar) with
+  | .error e => e
+  | .ok trees => if (norm (pending ar trees)).all present then .hit else .miss
+
+/-- any normalisation that keeps exactly the same digests (same hash and size) — sorting, removing
+repeated digests, batching — leaves every decision unchanged, for every result, tree decoding and
+presence state -/
+theorem walk_rewrite_keeping_digests_is_sound (norm : List Digest → List Digest)
+    (hn : ∀ l d, d ∈ norm l ↔ d ∈ l) (present : Present) (ar : ActionResult)
+    (treeOf : Digest → Option Tree) :
+    lookupWith norm present ar treeOf = lookup present ar treeOf := by
+  unfold lookupWith lookup
+  cases h : readTrees present treeOf (treeDigests ar) with
+  | error e => rfl
+  | ok trees =>
+    have : (norm (pending ar trees)).all present = (pending ar trees).all present := by
+      rw [Bool.eq_iff_iff, List.all_eq_true, List.all_eq_true]
+      constructor
+      · intro H d hd; exact H d ((hn _ d).2 hd)
+      · intro H d hd; exact H d ((hn _ d).1 hd)
+    simp only [this]
+
+/-- removing repeated digests (hash and size equal) is such a normalisation -/
+theorem dedup_by_digest_is_sound (present : Present) (ar : ActionResult) (treeOf : Digest → Option Tree) :
+    lookupWith List.eraseDups present ar treeOf = lookup present ar treeOf :=
+  walk_rewrite_keeping_digests_is_sound _ (fun _ _ => List.mem_eraseDups) present ar treeOf
+
+/-- keep the first digest of every hash (what a `seen` set keyed by the hash alone does) -/
+def dedupByHash : List Digest → List Digest
+  | [] => []
+  | d :: rest => d :: (dedupByHash rest).filter (fun e => e.hash != d.hash)
+
+/-- … whereas de-duplicating by the hash alone is **not** sound: a result that lists the hash `a`
+once with the size the CAS holds and once with another size is a hit under that rewrite although
+the second digest is absent (seeded change C06-m7; the same input is the harness's
+`mismatch.twin-of-earlier-reference` case) -/
+theorem dedup_by_hash_is_unsound :
+    ∃ (present : Present) (ar : ActionResult) (treeOf : Digest → Option Tree),
+      lookupWith dedupByHash present ar treeOf = .hit ∧ lookup present ar treeOf = .miss ∧
+      ∃ d ∈ referenced ar [], present d = false :=
+  ⟨fun d => d == ⟨"a", 1⟩,
+   { files := [some ⟨"f", some ⟨"a", 1⟩, false⟩, some ⟨"g", some ⟨"a", 2⟩, false⟩], dirs := [],
+     fileSymlinks := [], symlinks := [], dirSymlinks := [], stdoutDigest := none, stderrDigest := none },
+   fun _ => none, by decide, by decide, ⟨⟨"a", 2⟩, by decide, by decide⟩⟩
+
 /-! non-vacuity -/
 def dA : Digest := ⟨"a", 1⟩
 def dB : Digest := ⟨"b", 2⟩
@@ -173,4 +228,7 @@ example : lookup (fun _ => true) arX treeX = .hit ∧ lookup (fun d => d != dB) 
 #print axioms absent_blob_is_miss
 #print axioms all_present_is_hit
 #print axioms inline_files_not_pending
+#print axioms walk_rewrite_keeping_digests_is_sound
+#print axioms dedup_by_digest_is_sound
+#print axioms dedup_by_hash_is_unsound
 end BR.Props.C06
